@@ -753,7 +753,16 @@ class Fxp():
             raise ValueError('Not supported input type: {}'.format(type(val)))
 
         # convert to (numpy) ndarray
-        val = np.array(val)
+        if isinstance(val, (list, tuple)):
+            _val = np.array(val)
+            if _val.dtype.kind == 'f':
+                # lists of python integers beyond 64 bits must not be converted to float
+                _obj_val = np.array(val, dtype=object)
+                if _obj_val.shape == _val.shape and all(isinstance(v, int) for v in _obj_val.flat):
+                    _val = _obj_val
+            val = _val
+        else:
+            val = np.array(val)
 
         if vdtype is None:
             vdtype = val.dtype
@@ -888,7 +897,7 @@ class Fxp():
 
             if val_dtype == object:       
                 # convert each element to int
-                new_val = np.array(list(map(int, new_val.flatten()))).reshape(new_val.shape).astype(val_dtype)
+                new_val = np.array(list(map(int, new_val.flatten())), dtype=object).reshape(new_val.shape).astype(val_dtype)
             
             if index is not None:
                 self.val[index] = new_val
